@@ -397,7 +397,8 @@ def download(case):
     _, trace = (lambda: (fault.restore(work, ()), run(None))[1])()
     kinds = {e['kind'] for e in trace}
     if not {'os', 'open', 'net', 'write'} <= kinds and n > 0:
-      raise HarnessError('C19 download seam incomplete: %r' % sorted(kinds))
+      # the implementation does not go through (all of) the seams: the faults that could not be injected are not explored
+      case = dict(case, _cap='download seam incomplete (effect kinds seen: %s): faults on the missing kinds were not injected' % sorted(kinds))
   finally:
     shutil.rmtree(base, ignore_errors=True)
   return _info(st, case, trace)
@@ -441,10 +442,65 @@ def decompress(case):
     _, trace = run(None)
     kinds = {e['kind'] for e in trace}
     if not {'os', 'open', 'lzma'} <= kinds:
-      raise HarnessError('C19 decompress seam incomplete: %r' % sorted(kinds))
+      case = dict(case, _cap='decompress seam incomplete (effect kinds seen: %s): faults on the missing kinds were not injected' % sorted(kinds))
   finally:
     shutil.rmtree(base, ignore_errors=True)
   return _info(st, case, trace)
+
+
+def decompress_truncated(case):
+  """The compressed input itself ends early (short read at any position of the stream: a premature end of file is the
+  I/O fault here): the call must fail, the final path must not appear; after the input is complete again a call repairs
+  the cache, and the next one reuses it."""
+  from fedjax.datasets import downloads
+  n = case['size']
+  data = payload(n, 3, case.get('kind', 'noise'))
+  fmt = {'xz': real_lzma.FORMAT_XZ, 'alone': real_lzma.FORMAT_ALONE}[case['format']]
+  comp = real_lzma.compress(data, format=fmt)
+  cuts = sorted({0, 1, 5, 12, 13, len(comp) // 3, len(comp) // 2, len(comp) - 13, len(comp) - 5, len(comp) - 2, len(comp) - 1}
+                & set(range(len(comp))))
+  base = tempfile.mkdtemp(prefix='c19t_')
+  work = os.path.join(base, 'cache')
+  evals = 0
+  try:
+    for cut in cuts:
+      nc = dict(case, cut=cut)
+      shutil.rmtree(work, ignore_errors=True)
+      os.makedirs(work)
+      src = os.path.join(work, 'db.sqlite.lzma')
+      final = os.path.join(work, 'db.sqlite')
+      for attempt in range(2):
+        with open(src, 'wb') as f:
+          f.write(comp[:cut])
+        try:
+          with seams.patched(downloads, log=lambda *a, **k: None):
+            downloads.maybe_lzma_decompress(src)
+          failed = False
+        except Exception:  # pylint: disable=broad-except
+          failed = True
+        if os.path.exists(final):
+          with open(final, 'rb') as f:
+            got = f.read()
+          require(got == data, 'a compressed input that ends after %d of %d bytes left a %d-byte file under the final name '
+                  '(complete content: %d bytes)' % (cut, len(comp), len(got), len(data)), len(data), len(got), case=nc)
+        else:
+          require(failed, 'decompressing a truncated input neither failed nor produced the file', case=nc)
+      with open(src, 'wb') as f:
+        f.write(comp)
+      with seams.patched(downloads, log=lambda *a, **k: None):
+        p = downloads.maybe_lzma_decompress(src)
+      with open(p, 'rb') as f:
+        require(f.read() == data and os.path.basename(p) == 'db.sqlite', 'after the input was completed the cache was not '
+                'repaired', case=nc)
+      mt = os.stat(p).st_mtime_ns
+      with seams.patched(downloads, log=lambda *a, **k: None):
+        downloads.maybe_lzma_decompress(src)
+      require(os.stat(p).st_mtime_ns == mt, 'a complete decompressed file was rewritten instead of reused', case=nc)
+      evals += 1
+  finally:
+    shutil.rmtree(base, ignore_errors=True)
+  return {'evals': evals, 'nontrivial': n > 0, 'outcome': [n, case['format'], len(cuts)],
+          'keys': [['trunc', n, case['format'], c] for c in cuts]}
 
 
 def _info(st, case, trace):
@@ -455,6 +511,8 @@ def _info(st, case, trace):
           'sample': {'size': case['size'], 'effects': [e['kind'] + ':' + e['name'] for e in trace][:30]}}
   if st['cap']:
     info['cap'] = st['cap']
+  if case.get('_cap'):
+    info['cap'] = case['_cap']
   return info
 
 
@@ -605,7 +663,7 @@ def cifar_convert(case):
   return _info(st, dict(case, size=len(raw), what='cifar'), trace)
 
 
-SUBS = {'download': download, 'decompress': decompress, 'cifar_convert': cifar_convert}
+SUBS = {'download': download, 'decompress': decompress, 'decompress_truncated': decompress_truncated, 'cifar_convert': cifar_convert}
 TIMEOUTS = {k: 1500 for k in SUBS}
 
 
@@ -626,4 +684,6 @@ def plan(ctx):
            [{'size': n, 'what': 'download', 'kind': k} for n, k in kinds], chunk=1)
   ctx.pmap('decompress', [{'size': n, 'what': 'decompress'} for n in dc] +
            [{'size': n, 'what': 'decompress', 'kind': k} for n, k in kinds], chunk=1)
+  ctx.pmap('decompress_truncated', [{'size': n, 'format': f, 'kind': k} for n in ((0, 1, 1000, 200000, 5 * COPY) if th else (0, 1000, 200000))
+                                    for f in ('xz', 'alone') for k in (('noise', 'zero_tail') if n > 1000 else ('noise',))], chunk=2)
   ctx.pmap('cifar_convert', [{'split': s} for s in ('train', 'test')], chunk=1)
